@@ -237,6 +237,7 @@ func runC08(c *core.Ctx) {
 	c.Floor("G6", "initializers", nInit, 28)
 
 	runC08Cgen(c)
+	runC08Base(c)
 }
 
 // checkSelfGuards: rule G1. idx is advanced past the guards.
